@@ -103,6 +103,9 @@ func stdLoop(ps *PropSpec, w *World, tr *Trace, gen *Gen, check func(final bool)
 			st = tr.Steps[i]
 		}
 		w.StepNo = i
+		if w.BeforeStep != nil {
+			w.BeforeStep(w, &st)
+		}
 		v := w.execGuarded(&st)
 		if v == nil && w.AfterStep != nil {
 			v = w.AfterStep(w, &st)
@@ -126,14 +129,59 @@ func stdLoop(ps *PropSpec, w *World, tr *Trace, gen *Gen, check func(final bool)
 	return nil, nil
 }
 
-// execGuarded turns an injected in-operation crash into a crash step.
+// Armed describes a fault armed for the next step only.
+type Armed struct {
+	Kind string // cmp | hip | storable | decode (panic inside the k-th callback) | alloc | read (ledger error)
+	K    int
+}
+
+// execGuarded runs one step with the armed fault (if any) installed, and turns an
+// injected in-operation crash, or an operation that failed because of an injected
+// ledger fault, into a crash: in-memory state is abandoned, the model reverts to the last commit.
 func (w *World) execGuarded(st *Step) (v *Violation) {
+	if st.Op == "arm" {
+		if st.N > 0 {
+			w.armed = &Armed{Kind: st.Sub, K: st.N}
+		}
+		return nil
+	}
+	armed := w.armed
+	w.armed = nil
+	firedBefore := 0
+	if armed != nil {
+		switch armed.Kind {
+		case "alloc":
+			w.Ledger.SetPlan(&FaultPlan{FailAllocAt: map[int]bool{armed.K: true}})
+			firedBefore = w.Ledger.FaultsFired["ledger.alloc-error"]
+		case "read":
+			w.Ledger.SetPlan(&FaultPlan{FailReadAt: map[int]bool{armed.K: true}})
+			firedBefore = w.Ledger.FaultsFired["ledger.read-error"]
+		default:
+			w.Ctl.Reset()
+			w.Ctl.FailAt[armed.Kind] = armed.K
+			w.Ctl.Panic = true
+		}
+	}
+	disarm := func() {
+		if armed != nil {
+			w.Ctl.Reset()
+			if st.Op != "commit" && st.Op != "reopen" {
+				w.Ledger.SetPlan(nil)
+			}
+		}
+	}
 	defer func() {
 		if r := recover(); r != nil {
 			if _, ok := r.(injectedPanic); ok {
 				w.Stats.Inc("crash.panic-in-callback")
-				w.Ctl.Reset()
+				disarm()
 				w.Ledger.SetPlan(nil)
+				if w.commitJournal != nil {
+					// crash in the middle of a commit: the transactional ledger rolls the attempt back
+					w.Ledger.Regs = w.commitJournal
+					w.commitJournal = nil
+					w.Stats.Inc("crash.mid-commit-rollback")
+				}
 				w.Ledger.BeginPhase("op", false)
 				v = w.execCrash(&Step{Op: "crash", Sub: "abandon"})
 				return
@@ -141,7 +189,21 @@ func (w *World) execGuarded(st *Step) (v *Violation) {
 			panic(r)
 		}
 	}()
-	return w.Exec(st)
+	v = w.Exec(st)
+	if armed != nil && (armed.Kind == "alloc" || armed.Kind == "read") {
+		key := "ledger." + armed.Kind + "-error"
+		fired := w.Ledger.FaultsFired[key] - firedBefore
+		disarm()
+		if fired > 0 {
+			// the operation met an injected ledger error; whatever it returned, its in-memory
+			// state is not trusted any further: crash and recover
+			w.Stats.Inc("crash.after-ledger-error")
+			return w.execCrash(&Step{Op: "crash", Sub: "abandon"})
+		}
+		return v
+	}
+	disarm()
+	return v
 }
 
 func traceHash(tr *Trace) string {
